@@ -24,6 +24,8 @@ pub struct Record {
     pub failure: Option<String>,
     pub site_hits: std::collections::BTreeMap<&'static str, u64>,
     pub blocked_yields: u64,
+    /// (step, thread, site, payload) of every non-blocked hook event
+    pub log: Vec<(u64, usize, &'static str, u64)>,
 }
 
 struct Sched {
@@ -46,17 +48,31 @@ struct Sched {
     blocked_yields: u64,
     /// starve this thread until the given step
     starve: Option<(usize, u64)>,
+    recent: std::collections::VecDeque<(usize, &'static str, bool)>,
+    log: Vec<(u64, usize, &'static str, u64)>,
 }
 
 static SCHED: Mutex<Option<Sched>> = Mutex::new(None);
 static CV: Condvar = Condvar::new();
 
 thread_local! {
-    static TID: Cell<Option<usize>> = const { Cell::new(None) };
+    static TID: Cell<Option<(u64, usize)>> = const { Cell::new(None) };
+}
+
+/// every scheduled section has its own epoch; threads left over from an earlier section are
+/// strangers to the current one
+static EPOCH: std::sync::atomic::AtomicU64 = std::sync::atomic::AtomicU64::new(0);
+
+fn epoch() -> u64 {
+    EPOCH.load(std::sync::atomic::Ordering::SeqCst)
 }
 
 pub fn my_id() -> Option<usize> {
-    TID.with(|t| t.get())
+    TID.with(|t| t.get()).and_then(|(e, id)| if e == epoch() { Some(id) } else { None })
+}
+
+fn set_id(id: Option<usize>) {
+    TID.with(|t| t.set(id.map(|i| (epoch(), i))));
 }
 
 /// Starts a scheduled section; the calling thread becomes logical thread 0 and holds the baton.
@@ -86,14 +102,18 @@ pub fn begin(seed: u64, stickiness: u8, replay: Option<Vec<u16>>, max_steps: u64
         site_hits: Default::default(),
         blocked_yields: 0,
         starve,
+        recent: Default::default(),
+        log: vec![],
     };
+    EPOCH.fetch_add(1, std::sync::atomic::Ordering::SeqCst);
     *SCHED.lock().unwrap() = Some(s);
-    TID.with(|t| t.set(Some(0)));
+    set_id(Some(0));
 }
 
 /// Ends the scheduled section (only thread 0, after every other thread is Done).
 pub fn end() -> Record {
-    TID.with(|t| t.set(None));
+    set_id(None);
+    EPOCH.fetch_add(1, std::sync::atomic::Ordering::SeqCst);
     let s = SCHED.lock().unwrap().take().expect("scheduler active");
     Record {
         choices: s.choices,
@@ -104,6 +124,7 @@ pub fn end() -> Record {
         failure: s.failure,
         site_hits: s.site_hits,
         blocked_yields: s.blocked_yields,
+        log: s.log,
     }
 }
 
@@ -204,6 +225,13 @@ fn switch_from(me: usize, site: &'static str, payload: u64, blocked: bool) {
         return;
     }
     s.steps += 1;
+    if !blocked && s.log.len() < 50_000 {
+        s.log.push((s.steps, me, site, payload));
+    }
+    s.recent.push_back((me, site, blocked));
+    if s.recent.len() > 30 {
+        s.recent.pop_front();
+    }
     *s.site_hits.entry(site).or_insert(0) += 1;
     s.hash = crate::rng::mix(s.hash ^ (me as u64) ^ crate::rng::hash_str(site) ^ payload.rotate_left(17));
     if site.ends_with("_seqno") {
@@ -250,7 +278,8 @@ fn switch_from(me: usize, site: &'static str, payload: u64, blocked: bool) {
             if to.timed_out() {
                 waited += 1;
                 if waited >= 12 {
-                    s.failure = Some(format!("harness: baton lost (thread {} never yielded)", s.current));
+                    let tr: Vec<String> = s.recent.iter().map(|(t, site, b)| format!("t{t}:{site}{}", if *b { "(blocked)" } else { "" })).collect();
+                    s.failure = Some(format!("harness: baton lost (thread {} never yielded); states {:?}; last events: {}", s.current, s.threads, tr.join(" ")));
                     CV.notify_all();
                     break;
                 }
@@ -321,7 +350,7 @@ pub fn thread_enter(token: u64) {
         return;
     }
     let me = (token - 1) as usize;
-    TID.with(|t| t.set(Some(me)));
+    set_id(Some(me));
     let mut g = SCHED.lock().unwrap();
     loop {
         let Some(s) = g.as_mut() else { return };
@@ -335,7 +364,7 @@ pub fn thread_enter(token: u64) {
 
 pub fn thread_exit() {
     let Some(me) = my_id() else { return };
-    TID.with(|t| t.set(None));
+    set_id(None);
     let mut g = SCHED.lock().unwrap();
     let Some(s) = g.as_mut() else { return };
     s.threads[me] = St::Done;
